@@ -559,6 +559,11 @@ func runBrokerScenario(o *out, tag, replay string, gen func(r *rng) (plain, hook
 		for _, m := range mls {
 			o.emit(fmt.Sprintf("!C09.mux role=%s kind=%s", m.role, m.kind), m.impl, m.pred)
 		}
+		// accepted, dialled, never served, closed — then a fresh pair (both roles)
+		for _, role := range []string{"server", "client"} {
+			impl, pred := runMuxAcceptedNeverServed(role)
+			o.emit("!C09.mux role="+role+" kind=accepted-never-served", impl, pred)
+		}
 		// peer closes mid-negotiation, multiplexed: the plugin closes its listener between the knock's ack and the stream
 		{
 			impl, pred := runMuxAcceptorClosesMid()
